@@ -405,7 +405,7 @@ class Ctx:
         - are reported as violations, everything else is run normally"""
         items = list(items)
         while items:
-            if FAILFAST and self.violations:
+            if FAILFAST and self._new_violation():
                 self.exhaustive = False
                 return
             pool = self.pool()
@@ -413,7 +413,7 @@ class Ctx:
                 for idx, res in pool.imap_unordered(func, items):
                     items[idx] = _DONE
                     yield res
-                    if FAILFAST and self.violations:
+                    if FAILFAST and self._new_violation():
                         # (only used when a seeded change is re-run: the
                         # first confirmed violation settles the verdict)
                         self.exhaustive = False
@@ -495,6 +495,14 @@ class Ctx:
     def violation(self, key, what, case):
         if key not in self.violations:
             self.violations[key] = (what, case)
+
+    def _new_violation(self):
+        """(fail-fast mode) is there a violation that is not a listed finding?"""
+        if not hasattr(self, "_known_keys"):
+            self._known_keys = {f["key"] for f in
+                                load_known().get("findings", [])
+                                if f.get("property") == self.pid}
+        return any(k not in self._known_keys for k in self.violations)
 
     def note(self, case_hash, nontrivial, outcome, counts=None):
         self.evaluations += 1
